@@ -1,6 +1,6 @@
 CONSTANTS
   MaxConn = 3
-  MaxSteps = 11
+  MaxSteps = 14
   UseNames = FALSE
   GenMode = FALSE
 SPECIFICATION MSpec
